@@ -210,7 +210,9 @@ STR_SPECIAL = ['"', '\\', ',', '=', "'", ' ', ':', '/', '.', '-', '%', '\t', '\r
 NS_TYPES = ['http', 'https', 'cimxml-wbem', 'cimxml-wbems', 'wbem', 'x-y']
 
 
-def g_name(rng, nonascii=0.06):
+def g_name(rng, nonascii=0.06, dot_i=False):
+    if dot_i:
+        return rng.choice(LETTERS) + '\u0130' + rng.choice(LETTERS)
     n = rng.choice([1, 1, 2, 3, 4, 6, 9])
     alpha = LETTERS + ('' if rng.random() < 0.5 else NAME_EXTRA)
     s = rng.choice(LETTERS + '_') if rng.random() < 0.9 else rng.choice(NAME_EXTRA)
@@ -356,7 +358,7 @@ def g_path(rng, depth=3, feat=None):
     host, ns = g_host(rng), g_ns(rng, feat.get('badns', 0.0))
     if host is not None and ns is None and not feat.get('hostnons') :
         ns = g_ns(rng) or 'root'       # host without namespace only as a dedicated feature (open finding in the historical format)
-    return {'host': host, 'ns': ns, 'cls': g_name(rng), 'keys': keys}
+    return {'host': host, 'ns': ns, 'cls': g_name(rng, 0.06, bool(feat.get('dot_i'))), 'keys': keys}
 
 
 def swapcase_safe(s, rng):
@@ -466,6 +468,8 @@ def features(p, fmt, out=None):
         out.add('finding:namespace_chars')
     if fmt == 'historical' and p.host is not None and p.namespace is None:
         out.add('finding:historical_host_without_namespace')
+    if fmt == 'canonical' and any('\u0130' in x for x in [p.host or '', p.namespace or '', p.classname] + list(p.keybindings.keys())):
+        out.add('finding:lowercase_not_word')
     if not p.keybindings:
         out.add('limit:no_keybindings')
     for k, v in p.keybindings.items():
@@ -580,6 +584,8 @@ def oracle_cpath(run, spec, vspec=None):
             fnd.add('namespace_chars')
         if fmt == 'historical' and p.host is not None and p.namespace is None:
             fnd.add('historical_host_without_namespace')
+        if fmt == 'canonical' and any('İ' in x for x in [p.host or '', p.namespace or '', p.classname]):
+            fnd.add('lowercase_not_word')
         cause = '+'.join(sorted(fnd)) or 'none'
         try:
             with warnings.catch_warnings():
@@ -628,137 +634,223 @@ def feat_for(rng):
         return {'badns': 0.5}
     if r < 0.18:
         return {'hostnons': True}
+    if r < 0.20:
+        return {'dot_i': True}
     return {}
 
 
-def run(run):
-    import pywbem
-    rng = run.rng
-    n_paths = 40000 if run.thorough else 2500
-    n_cpaths = 6000 if run.thorough else 600
-    n_texts = 150000 if run.thorough else 9000
-    n_lits = 60000 if run.thorough else 4000
-    run.rule = ('seeded random instance paths (0..6 keybindings of type string/char16/boolean/uintN/sintN/int/real32/real64/float incl. '
-                'INF/NaN/exponent forms/random bit patterns, datetime incl. asterisks, reference nested <= 3; strings weighted toward '
-                'quote, backslash, comma, =, apostrophe, newline, look-alikes of datetimes/URIs/literals; hosts incl. IPv6, ports, '
-                'hyphens, userinfo; multi-level namespaces) x 4 formats, each with one case/key-order variant; class paths likewise; '
-                'parser texts = printed URIs with 1..3 single-character mutations, scheme/authority prefixes, literal near-misses, '
-                'hand-picked regex corner cases, random text; a path case is non-trivial when it has >= 1 keybinding')
-    run.assumptions += [
-        'CPython float()/repr(float) are the trusted text<->double codec (model carries reals as text; compared by bit pattern)',
-        'Python re `\\w`, str.lower(), str.casefold() for non-ASCII characters are a table computed by the real Python per request',
-        'CIMDateTime value semantics are C06; here only whether the constructor accepts a text (model: dtAccepts, ASCII digits)',
-        'str.lower() is applied character-wise in the model (generator alphabet avoids context-sensitive lower-casing, e.g. final sigma)',
-    ]
-    reqs, plan = [], []          # plan entries: (what, case, real_out)
-    printed_pool = []
+class Batch:
+    """requests for the model driver, flushed in chunks so that the thorough tier stays within memory"""
 
-    # ---- instance paths x formats, printing and parsing of the printed text
-    for i in range(n_paths):
-        feat = feat_for(rng)
-        spec = g_path(rng, rng.choice([0, 1, 1, 2, 3]), feat)
-        vspec = variant(spec, rng)
-        printed = oracle_path(run, spec, vspec)
-        with warnings.catch_warnings():
-            warnings.simplefilter('ignore')
-            p = build_path(spec)
-            pv = build_path(vspec)
-        nontrivial = bool(spec['keys'])
-        run.case({'path': spec}, nontrivial=nontrivial)
+    def __init__(self, run, limit=60000):
+        self.run, self.limit = run, limit
+        self.reqs, self.plan = [], []
+
+    def add(self, req, what, case, real):
+        self.reqs.append(req)
+        self.plan.append((what, case, real))
+        if len(self.reqs) >= self.limit:
+            self.flush()
+
+    def flush(self):
+        if not self.reqs:
+            return
+        run = self.run
+        answers = common.run_driver(PROP, self.reqs)
+        for (what, case, real), ans in zip(self.plan, answers):
+            if what in ('to', 'toc'):
+                m = common.from_cps(ans['ok']) if 'ok' in ans else ans
+                if m != real:
+                    run.disagree(case, m, real, 'to_wbem_uri')
+            elif what == 'from':
+                m = model_parse_canon(ans, 'inst')
+                run.count('parse:' + (real.get('exc') or 'ok'))
+                if m != real:
+                    run.disagree(case, m, real, 'CIMInstanceName.from_wbem_uri')
+            elif what == 'fromc':
+                m = model_parse_canon(ans, 'class')
+                if m != real:
+                    run.disagree(case, m, real, 'CIMClassName.from_wbem_uri')
+            else:
+                if ans != real:
+                    run.disagree(case, ans, real, 'literal recognisers')
+        self.reqs, self.plan = [], []
+
+
+def do_path(run, batch, spec, vspec, pool, rng, stats=True):
+    """one instance path: oracle on the real code, K for printing (4 formats + variant) and for parsing what was printed"""
+    printed = oracle_path(run, spec, vspec)
+    with warnings.catch_warnings():
+        warnings.simplefilter('ignore')
+        p = build_path(spec)
+        pv = build_path(vspec) if vspec is not None else None
+    run.case({'path': spec}, nontrivial=bool(spec['keys']))
+    if stats:
         for k, v in spec['keys']:
             run.count('keytype:' + v['t'])
         run.count('keys:%d' % len(spec['keys']))
         run.count('host:' + ('none' if spec['host'] is None else 'set'))
         run.count('ns:' + ('none' if spec['ns'] is None else 'set'))
-        tab = tab_for(*path_texts(p, []))
-        mp = model_path(p)
-        for fmt in FMTS:
-            if fmt not in printed:
+    tab = tab_for(*path_texts(p, []))
+    mp = model_path(p)
+    for k, v in p.keybindings.items():
+        if isinstance(v, float):
+            do_literal(run, batch, repr(float(v)), count=False)
+    for fmt in FMTS:
+        if fmt not in printed:
+            continue
+        batch.add({'op': 'to', 'fmt': fmt, 'path': mp, 'tab': tab}, 'to', {'kind': 'path', 'spec': spec, 'fmt': fmt}, printed[fmt])
+        batch.add({'op': 'from', 'text': common.cps(printed[fmt]), 'tab': tab_for(printed[fmt])}, 'from',
+                  {'kind': 'text', 'text': printed[fmt]}, real_parse(printed[fmt]))
+        if pool is not None and (len(pool) < 4000 or rng.random() < 0.05):
+            if len(pool) < 4000:
+                pool.append(printed[fmt])
+            else:
+                pool[rng.randrange(len(pool))] = printed[fmt]
+    if pv is not None:
+        batch.add({'op': 'to', 'fmt': 'canonical', 'path': model_path(pv), 'tab': tab_for(*path_texts(pv, []))}, 'to',
+                  {'kind': 'path', 'spec': vspec, 'fmt': 'canonical'}, pv.to_wbem_uri(format='canonical'))
+
+
+def do_cpath(run, batch, spec, vspec, pool):
+    printed = oracle_cpath(run, spec, vspec)
+    run.case({'cpath': spec}, nontrivial=True)
+    p = build_cpath(spec)
+    tab = tab_for(*path_texts(p, []))
+    for fmt in FMTS:
+        batch.add({'op': 'toc', 'fmt': fmt, 'cpath': model_cpath(p), 'tab': tab}, 'toc',
+                  {'kind': 'cpath', 'spec': spec, 'fmt': fmt}, printed[fmt])
+        batch.add({'op': 'fromc', 'text': common.cps(printed[fmt]), 'tab': tab_for(printed[fmt])}, 'fromc',
+                  {'kind': 'text', 'text': printed[fmt]}, real_parse(printed[fmt], 'class'))
+        if pool is not None and len(pool) < 4000:
+            pool.append(printed[fmt])
+
+
+def do_text(run, batch, text):
+    outs = oracle_text(run, text)
+    ok = 'ok' in outs['inst'] or 'ok' in outs['class']
+    run.case({'text': text}, nontrivial=ok)
+    run.count('text:' + ('accepted' if ok else 'rejected'))
+    tab = tab_for(text)
+    batch.add({'op': 'from', 'text': common.cps(text), 'tab': tab}, 'from', {'kind': 'text', 'text': text}, outs['inst'])
+    batch.add({'op': 'fromc', 'text': common.cps(text), 'tab': tab}, 'fromc', {'kind': 'text', 'text': text}, outs['class'])
+
+
+FREPR = re.compile(r'-?(?:\d+\.\d+|\d+(?:\.\d+)?e[+-]\d+)\Z|inf\Z|-inf\Z|nan\Z', re.ASCII)
+
+
+def do_literal(run, batch, text, count=True):
+    """_integerValue_to_int / _realValue_to_float / CIMDateTime(text) / shape of repr(float) vs the model's recognisers"""
+    import pywbem
+    from pywbem import _utils
+    try:
+        iv = _utils._integerValue_to_int(text)
+        iv = None if iv is None else str(iv)
+    except Exception as e:  # noqa
+        iv = 'EXC:' + type(e).__name__
+    try:
+        rv = _utils._realValue_to_float(text) is not None
+    except ValueError:
+        rv = False          # float() refused a text the pattern let through: same outcome for the caller
+    except Exception as e:  # noqa
+        rv = 'EXC:' + type(e).__name__
+    try:
+        pywbem.CIMDateTime(text)
+        dv = True
+    except ValueError:
+        dv = False
+    except Exception as e:  # noqa
+        dv = 'EXC:' + type(e).__name__
+        run.violate({'kind': 'CIMDateTime_raises_other_than_ValueError', 'exc': type(e).__name__},
+                    {'kind': 'literal', 'text': text}, {'exc': type(e).__name__})
+    if count:
+        run.case({'lit': text}, nontrivial=(iv is not None or rv is True or dv is True))
+        run.count('lit:' + ('int' if iv is not None else 'real' if rv is True else 'dt' if dv is True else 'none'))
+    else:
+        run.count('float_repr_shape:' + ('ok' if FREPR.match(text) else 'UNEXPECTED'))
+        if not FREPR.match(text):
+            run.notes.append('repr(float) outside the assumed shape: %r' % text)
+    batch.add({'op': 'lit', 'text': common.cps(text)}, 'lit', {'kind': 'literal', 'text': text},
+              {'int': iv, 'real': rv, 'dt': dv, 'frepr': bool(FREPR.match(text))})
+
+
+SWEEP_ALPHA = ['"', '\\', ',', '=', "'", 'a', ' ', '.', ':', '/']
+
+
+def sweep_strings(thorough):
+    """all strings of length <= 3 over the characters the URI grammar cares about; thorough: every BMP character
+    alone and next to a quote / backslash"""
+    out = ['']
+    for a in SWEEP_ALPHA:
+        out.append(a)
+        for b in SWEEP_ALPHA:
+            out.append(a + b)
+            for c in SWEEP_ALPHA:
+                out.append(a + b + c)
+    if thorough:
+        for cp in range(0x10000):
+            if 0xD800 <= cp <= 0xDFFF:
                 continue
-            reqs.append({'op': 'to', 'fmt': fmt, 'path': mp, 'tab': tab})
-            plan.append(('to', {'kind': 'path', 'spec': spec, 'fmt': fmt}, printed[fmt]))
-            reqs.append({'op': 'from', 'text': common.cps(printed[fmt]), 'tab': tab_for(printed[fmt])})
-            plan.append(('from', {'kind': 'text', 'text': printed[fmt]}, real_parse(printed[fmt])))
-            if len(printed_pool) < 4000 or rng.random() < 0.05:
-                printed_pool.append(printed[fmt])
-        reqs.append({'op': 'to', 'fmt': 'canonical', 'path': model_path(pv), 'tab': tab_for(*path_texts(pv, []))})
-        plan.append(('to', {'kind': 'path', 'spec': vspec, 'fmt': 'canonical'}, pv.to_wbem_uri(format='canonical')))
+            out.append(chr(cp))
+            if cp % 7 == 0:
+                out.append('\\' + chr(cp) + '"')
+    return out
+
+
+def run(run):
+    import pywbem
+    rng = run.rng
+    n_paths = 120000 if run.thorough else 9000
+    n_cpaths = 12000 if run.thorough else 1500
+    n_texts = 400000 if run.thorough else 30000
+    n_lits = 150000 if run.thorough else 12000
+    run.rule = ('seeded random instance paths (0..6 keybindings of type string/char16/boolean/uintN/sintN/int/real32/real64/float incl. '
+                'INF/NaN/exponent forms/random bit patterns, datetime incl. asterisks, reference nested <= 3; strings weighted toward '
+                'quote, backslash, comma, =, apostrophe, newline, look-alikes of datetimes/URIs/literals; hosts incl. IPv6, ports, '
+                'hyphens, userinfo; multi-level namespaces) x 4 formats, each with one case/key-order variant; exhaustive sweep of all '
+                'string key values of length <= 3 over the 10 grammar characters (thorough: every BMP character); class paths likewise; '
+                'parser texts = printed URIs with 1..3 single-character mutations, scheme/authority prefixes, literal near-misses, '
+                'hand-picked regex corner cases, random text; literal recognisers on near-miss literals; '
+                'a path case is non-trivial when it has >= 1 keybinding, a text case when one of the two parsers accepts it')
+    run.assumptions += [
+        'CPython float()/repr(float) are the trusted text<->double codec (model carries reals as text; compared by bit pattern)',
+        'Python re `\\w`, str.lower(), str.casefold() for non-ASCII characters are a table computed by the real Python per request',
+        'CIMDateTime value semantics are C06; here only whether the constructor accepts a text (model: dtAccepts, ASCII digits)',
+        'str.lower() is applied character-wise in the model (generator alphabet avoids the one context-sensitive case, capital sigma)',
+    ]
+    batch = Batch(run)
+    pool = []
+
+    # ---- instance paths x formats
+    for i in range(n_paths):
+        feat = feat_for(rng)
+        spec = g_path(rng, rng.choice([0, 1, 1, 2, 3]), feat)
+        do_path(run, batch, spec, variant(spec, rng), pool, rng)
+
+    # ---- exhaustive sweep of short string values
+    for sv in sweep_strings(run.thorough):
+        spec = {'host': None, 'ns': 'root', 'cls': 'C', 'keys': [['k', {'t': 'str', 'v': sv}]]}
+        do_path(run, batch, spec, None, None, rng, stats=False)
+        run.count('sweep:string')
 
     # ---- class paths
     for i in range(n_cpaths):
-        spec = {'host': g_host(rng), 'ns': g_ns(rng, 0.05 if rng.random() < 0.3 else 0.0), 'cls': g_name(rng)}
+        f = rng.random()          # at most one open-finding feature per class path
+        host, ns = g_host(rng), g_ns(rng, 0.5 if f < 0.06 else 0.0)
+        if host is not None and ns is None and not 0.06 <= f < 0.12:
+            ns = 'root'
+        spec = {'host': host, 'ns': ns, 'cls': g_name(rng, 0.06, 0.12 <= f < 0.14)}
         vspec = {'host': swapcase_safe(spec['host'], rng), 'ns': swapcase_safe(spec['ns'], rng), 'cls': swapcase_safe(spec['cls'], rng)}
-        printed = oracle_cpath(run, spec, vspec)
-        run.case({'cpath': spec}, nontrivial=True)
-        p = build_cpath(spec)
-        tab = tab_for(*path_texts(p, []))
-        for fmt in FMTS:
-            reqs.append({'op': 'toc', 'fmt': fmt, 'cpath': model_cpath(p), 'tab': tab})
-            plan.append(('toc', {'kind': 'cpath', 'spec': spec, 'fmt': fmt}, printed[fmt]))
-            reqs.append({'op': 'fromc', 'text': common.cps(printed[fmt]), 'tab': tab_for(printed[fmt])})
-            plan.append(('fromc', {'kind': 'text', 'text': printed[fmt]}, real_parse(printed[fmt], 'class')))
-            printed_pool.append(printed[fmt])
+        do_cpath(run, batch, spec, vspec, pool)
 
     # ---- parser on arbitrary / near-miss text
     for i in range(n_texts):
-        text = g_text(rng, printed_pool)
-        outs = oracle_text(run, text)
-        ok = 'ok' in outs['inst'] or 'ok' in outs['class']
-        run.case({'text': text}, nontrivial=ok)
-        run.count('text:' + ('accepted' if ok else 'rejected'))
-        tab = tab_for(text)
-        reqs.append({'op': 'from', 'text': common.cps(text), 'tab': tab})
-        plan.append(('from', {'kind': 'text', 'text': text}, outs['inst']))
-        reqs.append({'op': 'fromc', 'text': common.cps(text), 'tab': tab})
-        plan.append(('fromc', {'kind': 'text', 'text': text}, outs['class']))
+        do_text(run, batch, g_text(rng, pool))
 
     # ---- literal recognisers of pywbem/_utils.py and CIMDateTime acceptance
-    from pywbem import _utils
     for i in range(n_lits):
-        text = g_literal(rng)
-        try:
-            iv = _utils._integerValue_to_int(text)
-            iv = None if iv is None else str(iv)
-        except Exception as e:  # noqa
-            iv = 'EXC:' + type(e).__name__
-        try:
-            rv = _utils._realValue_to_float(text) is not None
-        except ValueError:
-            rv = False          # float() refused a text the pattern let through: same outcome for the caller
-        except Exception as e:  # noqa
-            rv = 'EXC:' + type(e).__name__
-        try:
-            pywbem.CIMDateTime(text)
-            dv = True
-        except ValueError:
-            dv = False
-        except Exception as e:  # noqa
-            dv = 'EXC:' + type(e).__name__
-            run.violate({'kind': 'CIMDateTime_raises_other_than_ValueError', 'exc': type(e).__name__},
-                        {'kind': 'literal', 'text': text}, {'exc': type(e).__name__})
-        run.case({'lit': text}, nontrivial=(iv is not None or rv is True or dv is True))
-        run.count('lit:' + ('int' if iv is not None else 'real' if rv is True else 'dt' if dv is True else 'none'))
-        reqs.append({'op': 'lit', 'text': common.cps(text)})
-        plan.append(('lit', {'kind': 'literal', 'text': text}, {'int': iv, 'real': rv, 'dt': dv}))
-
-    answers = common.run_driver(PROP, reqs)
-    for (what, case, real), ans in zip(plan, answers):
-        if what in ('to', 'toc'):
-            m = common.from_cps(ans['ok']) if 'ok' in ans else ans
-            if m != real:
-                run.disagree(case, m, real, 'to_wbem_uri')
-        elif what == 'from':
-            m = model_parse_canon(ans, 'inst')
-            run.count('parse:' + (real.get('exc') or 'ok'))
-            if m != real:
-                run.disagree(case, m, real, 'CIMInstanceName.from_wbem_uri')
-        elif what == 'fromc':
-            m = model_parse_canon(ans, 'class')
-            if m != real:
-                run.disagree(case, m, real, 'CIMClassName.from_wbem_uri')
-        else:
-            if ans != real:
-                run.disagree(case, ans, real, 'literal recognisers')
+        do_literal(run, batch, g_literal(rng))
+    batch.flush()
 
 
 def search(run):
